@@ -15,7 +15,7 @@ import numpy as np
 from rv import atoms as AT
 from rv import common as C
 
-N_CASES = {'quick': 4000, 'thorough': 80000}
+N_CASES = {'quick': 12000, 'thorough': 80000}
 TIMEOUT = {'quick': 1500, 'thorough': 6 * 3600}
 ANCHORS = ['lp:Convex.__neg__', 'lp:Convex.__add__', 'lp:Convex.__mul__', 'lp:Convex.__le__',
            'lp:Convex.__ge__', 'lp:Convex.__eq__', 'lp:PiecewiseConvex.__le__',
@@ -23,7 +23,7 @@ ANCHORS = ['lp:Convex.__neg__', 'lp:Convex.__add__', 'lp:Convex.__mul__', 'lp:Co
            'lp:DecAffine.__le__', 'lp:DecAffine.__ge__', 'lp:DecConvex.__le__',
            'lp:DecConvex.__ge__', 'lp:ExpPiecewiseConvex.__le__', 'lp:Affine.__mul__',
            'lp:Affine.__matmul__', 'lp:DecAffine.__mul__']
-FLOORS = {'judged': {'quick': 3000, 'thorough': 60000}, 'nontrivial': 300,
+FLOORS = {'judged': {'quick': 9000, 'thorough': 60000}, 'nontrivial': 300,
           'counters': {'accepted_convex_probed': 300, 'rejected_nonconvex': 500,
                        'bilinear_rejected': 50}}
 RULE = ('random (front end, atom family [plain, perspective, piecewise, expectation of piecewise], '
